@@ -325,7 +325,7 @@ theorem fetchRead_local (fixed : Bool) (v : Nat) (offset : Int) (b : Body) (hc :
                 simp only []
                 rw [hd]
                 cases hq3 : discardN (↑s3.sz) s3 with
-                | mk r4 s4 => cases r4 <;> rfl
+                | mk r4 s4 => cases r4 <;> cases fixed <;> rfl
               | _ => rfl
 
 end KV.ConnOps
